@@ -1,54 +1,7 @@
 #!/venv/bin/python
-"""Mechanical behaviour-preserving rewrites of the whole package, used to test that no check depends on spelling.
-
-    cd <tree> && tools/mechanical.py <suffix> [<seed> [<probability>]]
-
-Every file under basana/ is re-emitted through ast.unparse (comments, docstring layout, line breaks and line numbers all change) and
-every plain local variable (not a parameter, global, handler name, import or nested-function parameter) is renamed with the given
-probability to a randomly built new name.  Run in a scratch copy or in /repo followed by `git -C /repo checkout -- .`; the pinned 226
-tests pass on the result, and all 20 checks must stay silent (DESIGN.md 11.5)."""
-import ast,glob,sys
-SUF=sys.argv[1] if len(sys.argv)>1 else "_v"
-import random
-random.seed(int(sys.argv[2]) if len(sys.argv)>2 else 0)
-PROB=float(sys.argv[3]) if len(sys.argv)>3 else 1.0
-def process(fn):
-    stores=set(); bad=set()
-    params={a.arg for a in fn.args.posonlyargs+fn.args.args+fn.args.kwonlyargs}
-    if fn.args.vararg: params.add(fn.args.vararg.arg)
-    if fn.args.kwarg: params.add(fn.args.kwarg.arg)
-    for n in ast.walk(fn):
-        if isinstance(n,ast.Name) and isinstance(n.ctx,(ast.Store,ast.Del)): stores.add(n.id)
-        elif isinstance(n,(ast.Global,ast.Nonlocal)): bad|=set(n.names)
-        elif isinstance(n,ast.ExceptHandler) and n.name: bad.add(n.name)
-        elif isinstance(n,ast.alias): bad.add((n.asname or n.name).split('.')[0])
-        elif isinstance(n,(ast.FunctionDef,ast.AsyncFunctionDef,ast.Lambda)) and n is not fn:
-            a=n.args
-            for x in a.posonlyargs+a.args+a.kwonlyargs: bad.add(x.arg)
-            if a.vararg: bad.add(a.vararg.arg)
-            if a.kwarg: bad.add(a.kwarg.arg)
-            if not isinstance(n,ast.Lambda): bad.add(n.name)
-        elif isinstance(n,ast.ClassDef): bad.add(n.name); 
-        elif isinstance(n,(ast.MatchAs,ast.MatchStar)) and n.name: bad.add(n.name)
-    ren={x for x in sorted(stores-bad-params) if random.random()<PROB}
-    mp={x:random.choice(['tmp_','new_','the_','x'])+x[::random.choice([1,-1])].strip('_')+random.choice(['','2','_val']) for x in ren}
-    if len(set(mp.values()))<len(mp) or set(mp.values())&(stores|bad|params): mp={x:x+SUF for x in ren}
-    for st in fn.body:
-      for n in ast.walk(st):
-        if isinstance(n,ast.Name) and n.id in ren: n.id=mp[n.id]
-    return len(ren)
-tot=0
-for f in glob.glob('basana/**/*.py',recursive=True):
-    t=ast.parse(open(f).read())
-    # only outermost functions (methods or module-level)
-    def outer(node):
-        global tot
-        for c in ast.iter_child_nodes(node):
-            if isinstance(c,(ast.FunctionDef,ast.AsyncFunctionDef)):
-                # skip if class-body nested in function etc.
-                tot+=process(c)
-            elif isinstance(c,ast.ClassDef): outer(c)
-            elif isinstance(c,(ast.If,ast.Try)): outer(c)
-    outer(t)
-    open(f,'w').write(ast.unparse(t)+"\n")
-print("renamed",tot)
+"""tools/mechanical.py <root> <mode> [seed [prob]] - rewrite <root>/basana in place (scratch copies only); see sa/mechanical.py."""
+import os
+import sys
+sys.path.insert(0, os.path.dirname(os.path.dirname(os.path.abspath(__file__))))
+from sa import mechanical
+print(mechanical.rewrite(sys.argv[1], sys.argv[2], int(sys.argv[3]) if len(sys.argv) > 3 else 1, float(sys.argv[4]) if len(sys.argv) > 4 else 0.6))
